@@ -38,7 +38,7 @@ static uint32_t bloc_builtin_hash(uint32_t maxsize, const char * buf, unsigned l
 
   while (buf < end)
   {
-    h = ((h << 5) + h) + *buf++;
+    h = ((h << 5) + h) + (unsigned char)(*buf++);
   }
   return h % maxsize;
 }
